@@ -755,4 +755,68 @@ theorem condMachine_congr (ev₁ ev₂ : ε → Defs β → Except Diag Bool) (l
     condMachine ev₁ ls d = condMachine ev₂ ls d := by
   unfold condMachine; rw [run_congr ev₁ ev₂ ls h]
 
+-- ------------------------------------------------------------------ the skip functions as written in C
+
+theorem skipCondIncl2C_length (f : Nat) (ls : List (Line ε β)) : (skipCondIncl2C f ls).length ≤ ls.length := by
+  induction f generalizing ls with
+  | zero => simp [skipCondIncl2C]
+  | succ f ih =>
+    cases ls with
+    | nil => simp [skipCondIncl2C]
+    | cons l ls =>
+      cases l with
+      | opens h =>
+        simp only [skipCondIncl2C, List.length_cons]
+        exact Nat.le_succ_of_le (Nat.le_trans (ih _) (ih _))
+      | endif x => simp [skipCondIncl2C]
+      | part h => simp only [skipCondIncl2C, List.length_cons]; exact Nat.le_succ_of_le (ih _)
+      | plain p => simp only [skipCondIncl2C, List.length_cons]; exact Nat.le_succ_of_le (ih _)
+
+/-- with enough fuel, `d+1` nested activations of the C function are `skipFrom (d+1)` followed by … -/
+theorem skipFrom_succ_eq (f : Nat) : ∀ (ls : List (Line ε β)) (d : Nat), ls.length ≤ f →
+    skipFrom (d+1) ls = skipFrom d (skipCondIncl2C f ls) := by
+  induction f with
+  | zero =>
+    intro ls d h
+    have : ls = [] := by cases ls <;> simp_all
+    subst this; cases d <;> simp [skipFrom, skipCondIncl2C]
+  | succ f ih =>
+    intro ls d h
+    cases ls with
+    | nil => cases d <;> simp [skipFrom, skipCondIncl2C]
+    | cons l ls =>
+      have hl : ls.length ≤ f := by simpa using h
+      cases l with
+      | opens hd =>
+        simp only [skipFrom, skipCondIncl2C]
+        rw [ih ls (d+1) hl, ih (skipCondIncl2C f ls) d (Nat.le_trans (skipCondIncl2C_length f ls) hl)]
+      | endif x => simp [skipFrom, skipCondIncl2C]
+      | part hd => simp only [skipFrom, skipCondIncl2C]; exact ih ls d hl
+      | plain p => simp only [skipFrom, skipCondIncl2C]; exact ih ls d hl
+
+/-- the flattened function `skipFrom 0` is the C function `skip_cond_incl` (given fuel ≥ number of lines) -/
+theorem skipCondIncl_eq_C (f : Nat) : ∀ (ls : List (Line ε β)), ls.length ≤ f →
+    skipCondIncl ls = skipCondInclC f ls := by
+  unfold skipCondIncl
+  induction f with
+  | zero =>
+    intro ls h
+    have : ls = [] := by cases ls <;> simp_all
+    subst this; simp [skipFrom, skipCondInclC]
+  | succ f ih =>
+    intro ls h
+    cases ls with
+    | nil => simp [skipFrom, skipCondInclC]
+    | cons l ls =>
+      have hl : ls.length ≤ f := by simpa using h
+      cases l with
+      | opens hd =>
+        simp only [skipFrom, skipCondInclC]
+        rw [skipFrom_succ_eq f ls 0 hl]
+        exact ih _ (Nat.le_trans (skipCondIncl2C_length f ls) hl)
+      | endif x => simp [skipFrom, skipCondInclC]
+      | part hd => simp [skipFrom, skipCondInclC]
+      | plain p => simp only [skipFrom, skipCondInclC]; exact ih ls hl
+
+
 end ChibiVerif.CondIncl
